@@ -51,7 +51,7 @@ func init() {
 			}
 			return len(c.Lines) > 6 && ((grow && rm) || !hooks)
 		},
-		Rule:     "op sequences (set/setnx/setx/get/getnode/setnode/rm/clear/init/len/head/keys/values/range/all/rfrom/rrange with early stop) on SkipList[int|string,int] (zero value and New) and SkipListWithCmp (natural, reverse, modular-then-value / length-then-bytes comparators) with forced tower heights; non-trivial = ≥ 6 ops with at least one top-level growth and one successful removal; distinct by hash of the op list",
+		Rule:     "op sequences (set/setnx/setx/get/getnode/setnode/rm/clear/init/len/head/keys/values/range/all/rfrom/rrange with early stop, walk/walkfrom through Head()/GetNode()+Next(), a node handle kept across operations: hold/held/heldset/heldwalk) on SkipList[int|string,int] (zero value and New) and SkipListWithCmp (natural, reverse, modular-then-value / length-then-bytes total orders, and the weak orders k>>1 / length-only that identify distinct keys) with forced tower heights; non-trivial = ≥ 6 ops with at least one top-level growth and one successful removal; distinct by hash of the op list",
 		Classify: classify,
 		Facts:    facts,
 		Parallel: true,
@@ -60,6 +60,8 @@ func init() {
 			"nodes are identified by their keys in the model (pointer splicing = list surgery per level); the reflection dump of every level after every op ties the two",
 			"typez.Ordered float keys (NaN) are excluded: not a total order",
 			"a zero-value SkipListWithCmp has no comparator and is not usable by design; the zero-value clause is about SkipList",
+			"a node handle is used only while its node is linked: Next() on a node that has been removed panics by construction (Remove sets its tower to nil) and is outside the ordered-map reading",
+			"a case stops calling the real code as soon as the reflected towers show pointer damage (cycle, node linked above its height, chain above level): the damaged state is reported, later operations answer `halted`",
 			note,
 		},
 		TrustedBase: []string{
@@ -95,6 +97,8 @@ func intCmp(name string) func(a, b int) int {
 			}
 			return cmpInt(a, b)
 		}
+	case "half": // weak order: 2m and 2m+1 compare equal
+		return func(a, b int) int { return cmpInt(a>>1, b>>1) }
 	}
 	return nil
 }
@@ -112,6 +116,8 @@ func strCmp(name string) func(a, b string) int {
 			}
 			return strings.Compare(a, b)
 		}
+	case "lenonly": // weak order: strings of the same length compare equal
+		return func(a, b string) int { return cmpInt(len(a), len(b)) }
 	}
 	return nil
 }
@@ -165,9 +171,9 @@ func gen(r *core.Rand, tier string) core.Case {
 	cmp := "nat"
 	if kind == "cmp" {
 		if kt == "int" {
-			cmp = []string{"nat", "rev", "mod3", "mod3"}[r.Intn(4)]
+			cmp = []string{"nat", "rev", "mod3", "mod3", "half", "half"}[r.Intn(6)]
 		} else {
-			cmp = []string{"nat", "rev", "len"}[r.Intn(3)]
+			cmp = []string{"nat", "rev", "len", "lenonly"}[r.Intn(4)]
 		}
 	}
 	lines := []string{fmt.Sprintf("@ C02 %s %s %s %s", kind, kt, cmp, dumpFlag())}
@@ -224,7 +230,7 @@ func gen(r *core.Rand, tier string) core.Case {
 	}
 	for i := 0; i < n; i++ {
 		val++
-		switch r.Pick(30, 9, 7, 14, 8, 3, 3, 4, 1, 1, 2, 2, 2, 2, 2, 5, 5) {
+		switch r.Pick(30, 9, 7, 14, 8, 3, 3, 4, 1, 1, 2, 2, 2, 2, 2, 5, 5, 2, 2, 3, 3, 2, 2) {
 		case 0:
 			lines = append(lines, fmt.Sprintf("set %s %d %d", key(), val, wordFor(r, height())))
 		case 1:
@@ -263,6 +269,18 @@ func gen(r *core.Rand, tier string) core.Case {
 			lines = append(lines, fmt.Sprintf("rfrom %s %d", key(), stop()))
 		case 16:
 			lines = append(lines, fmt.Sprintf("rrange %s %s %d", key(), key(), stop()))
+		case 17:
+			lines = append(lines, "walk")
+		case 18:
+			lines = append(lines, "walkfrom "+key())
+		case 19:
+			lines = append(lines, "hold "+key())
+		case 20:
+			lines = append(lines, "held")
+		case 21:
+			lines = append(lines, fmt.Sprintf("heldset %d", val))
+		case 22:
+			lines = append(lines, "heldwalk")
 		}
 	}
 	return core.Case{Lines: lines, Tag: tag}
@@ -291,6 +309,11 @@ func corpus() []core.Case {
 		core.Case{Lines: []string{"@ C02 new int nat " + dumpFlag(), "set 5 1 1", "set 3 2 1", "set 8 3 1", "set 4 4 1", "rm 8", "rm 5", "set 9 5 1", "rm 3", "rm 4", "rm 9", "set 1 6 1", "rrange 0 5 0", "rfrom 2 0"}, Tag: "corpus"},
 		core.Case{Lines: []string{"@ C02 cmp int mod3 " + dumpFlag(), "set 5 1 1", "set 3 2 536870912", "set 8 3 1", "set 4 4 0", "rfrom 7 0", "rrange 3 5 0", "rrange 4 3 0", "rm 8", "keys", "head", "getnode 3"}, Tag: "corpus"},
 		core.Case{Lines: []string{"@ C02 cmp str len " + dumpFlag(), "set 6162 1 1", "set 7a 2 1", "set - 3 1", "set 62 4 0", "keys", "rfrom 61 0", "rrange - 7a 0", "rm 7a", "rm -", "keys"}, Tag: "corpus"},
+		// weak orders: 6 and 7 (k>>1 = 3) are one binding, the stored key 7 survives the replacing Set/SetX
+		core.Case{Lines: []string{"@ C02 cmp int half " + dumpFlag(), "set 7 101 536870912", "setx 6 115 0", "get 6", "get 7", "getnode 6", "setnx 6 1 0", "set 2 5 1", "set 9 6 0", "keys", "rfrom 3 0", "rrange 3 8 0", "rrange 2 6 0", "hold 3", "set 3 77 0", "held", "heldwalk", "rm 2", "held", "walk", "rm 6", "len", "keys"}, Tag: "corpus-weak"},
+		core.Case{Lines: []string{"@ C02 cmp str lenonly " + dumpFlag(), "set 6162 1 1", "set 7a 2 1", "set 6263 3 0", "set - 4 1073741824", "keys", "values", "getnode 7979", "setnode 62 9", "rfrom 61 0", "rrange - 6161 0", "walkfrom 63", "rm 6364", "rm 6364", "walk", "head"}, Tag: "corpus-weak"},
+		// node handles: traversal by Next(), a handle kept across inserts/removals of other keys
+		core.Case{Lines: []string{"@ C02 new int nat " + dumpFlag(), "walk", "set 5 1 536870912", "set 3 2 1073741824", "set 8 3 0", "walk", "walkfrom 5", "walkfrom 4", "hold 5", "rm 3", "set 6 4 1", "set 9 5 0", "held", "heldwalk", "heldset 42", "get 5", "rm 8", "heldwalk", "rm 5", "held", "heldwalk", "hold 1", "held"}, Tag: "corpus"},
 	)
 	return cs
 }
@@ -301,6 +324,7 @@ type runner interface {
 	step(t []string) string
 	dump() string
 	lazyMismatch() bool
+	isHalted() bool
 }
 
 type run[K any] struct {
@@ -312,7 +336,11 @@ type run[K any] struct {
 	dumpOn    bool
 	mismatch  bool // the unforced height of the lazy-init insert differs from what the line asks for
 	structBad string
+	halted    bool         // the reflected towers are damaged: no further call into the real code
+	held      *nodeView[K] // node handle kept by `hold`
 }
+
+func (r *run[K]) isHalted() bool { return r.halted }
 
 func (r *run[K]) lazyMismatch() bool { return r.mismatch }
 
@@ -323,6 +351,13 @@ func (r *run[K]) dump() string {
 	level, n, isNil, chains, bad := towers(r.l.ptr, r.showRV)
 	if bad != "" {
 		r.structBad = bad
+	}
+	// Fuse: pointer damage (a cycle, a node linked above its height, a chain above `level`)
+	// can make the next search of the real code loop forever or walk into dead nodes. The
+	// damage is already visible here, so the case stops calling the real code: the failing
+	// operation is reported at once instead of after the 30 s hang timeout.
+	if bad != "" || (!isNil && (len(chains) > level || level < 1 || level > 32)) {
+		r.halted = true
 	}
 	body := "nil"
 	if !isNil {
@@ -357,6 +392,31 @@ func (r *run[K]) kvs(xs []kv[K]) string {
 	}
 	b.WriteByte(']')
 	return b.String()
+}
+
+func (r *run[K]) showNode(n *nodeView[K]) string {
+	if n == nil {
+		return "nil"
+	}
+	nx := "nil"
+	if n.hasNext {
+		nx = r.show(n.next)
+	}
+	return fmt.Sprintf("%s %d next=%s", r.show(n.key), n.val, nx)
+}
+
+// walk follows Next() from n to the end, reading Key() and Value() of every node.
+func (r *run[K]) walk(n *nodeView[K]) string {
+	var xs []kv[K]
+	limit := r.l.length() + 1000
+	for n != nil {
+		xs = append(xs, kv[K]{n.key, n.val})
+		if len(xs) > limit {
+			return "walk-does-not-terminate"
+		}
+		n = n.nextNode()
+	}
+	return r.kvs(xs)
 }
 
 type kv[K any] struct {
@@ -427,19 +487,15 @@ func (r *run[K]) step(t []string) string {
 			v, ok := l.get(k)
 			return fmt.Sprintf("%d %v", v, ok)
 		case "rm":
+			// the kept node leaves the list when a key equivalent to its key is removed
+			if r.held != nil && l.cmp(r.held.key, k) == 0 {
+				r.held = nil
+			}
 			v, ok := l.remove(k)
 			return fmt.Sprintf("%d %v", v, ok)
 		}
 		l.argKey = k
-		n := l.getNode()
-		if n == nil {
-			return "nil"
-		}
-		nx := "nil"
-		if n.hasNext {
-			nx = r.show(n.next)
-		}
-		return fmt.Sprintf("%s %d next=%s", r.show(n.key), n.val, nx)
+		return r.showNode(l.getNode())
 	case "setnode":
 		if len(t) != 3 {
 			return "bad-op"
@@ -456,16 +512,67 @@ func (r *run[K]) step(t []string) string {
 		}
 		n.setValue(v)
 		return "ok"
+	case "walk", "heldwalk", "held":
+		if len(t) != 1 {
+			return "bad-op"
+		}
+		var n *nodeView[K]
+		switch t[0] {
+		case "walk":
+			n = l.head()
+		default:
+			if r.held == nil {
+				return "none"
+			}
+			n = r.held.again()
+			if t[0] == "held" {
+				return r.showNode(n)
+			}
+		}
+		return r.walk(n)
+	case "walkfrom", "hold":
+		if len(t) != 2 {
+			return "bad-op"
+		}
+		k, ok := r.parse(t[1])
+		if !ok {
+			return "bad-op"
+		}
+		l.argKey = k
+		n := l.getNode()
+		if t[0] == "hold" {
+			r.held = n
+			if n == nil {
+				return "nil"
+			}
+			return r.showNode(n)
+		}
+		return r.walk(n)
+	case "heldset":
+		if len(t) != 2 {
+			return "bad-op"
+		}
+		v, err := strconv.Atoi(t[1])
+		if err != nil {
+			return "bad-op"
+		}
+		if r.held == nil {
+			return "none"
+		}
+		r.held.setValue(v)
+		return "ok"
 	case "clear":
 		if len(t) != 1 {
 			return "bad-op"
 		}
 		l.clear()
+		r.held = nil
 		return "ok"
 	case "init":
 		if len(t) != 1 {
 			return "bad-op"
 		}
+		r.held = nil
 		l.init()
 		if r.dumpOn {
 			install(l.ptr, r.src)
@@ -635,6 +742,9 @@ func impl(c core.Case) []string {
 				if r == nil {
 					return "bad-op"
 				}
+				if r.isHalted() {
+					return "halted"
+				}
 				res := r.step(t)
 				if res == "bad-op" {
 					return res
@@ -698,25 +808,68 @@ func check(c core.Case, out []string) *core.Failure {
 	default:
 		return nil
 	}
-	ref := map[string]int{}
-	sorted := func() []string {
-		ks := make([]string, 0, len(ref))
-		for k := range ref {
-			ks = append(ks, k)
+	// The reference: bindings keyed by comparator-equivalence class. A key that compares equal
+	// to a stored key denotes the same binding and the stored key stays (for a total order
+	// this is a plain map). Kept in insertion order; sorted on demand.
+	type ent struct {
+		k string
+		v int
+	}
+	var ref []ent
+	find := func(k string) int {
+		for i := range ref {
+			if cmp(ref[i].k, k) == 0 {
+				return i
+			}
 		}
-		sort.Slice(ks, func(i, j int) bool { return cmp(ks[i], ks[j]) < 0 })
+		return -1
+	}
+	sortedEnts := func() []ent {
+		es := append([]ent(nil), ref...)
+		sort.SliceStable(es, func(i, j int) bool { return cmp(es[i].k, es[j].k) < 0 })
+		return es
+	}
+	sorted := func() []string {
+		es := sortedEnts()
+		ks := make([]string, len(es))
+		for i, e := range es {
+			ks[i] = e.k
+		}
 		return ks
 	}
-	kvs := func(ks []string, stop int) string {
+	kvs := func(es []ent, stop int) string {
 		var ss []string
-		for _, k := range ks {
-			ss = append(ss, k+":"+strconv.Itoa(ref[k]))
+		for _, e := range es {
+			ss = append(ss, e.k+":"+strconv.Itoa(e.v))
 			if len(ss) == stop {
 				break
 			}
 		}
 		return "[" + strings.Join(ss, " ") + "]"
 	}
+	nodeStr := func(k string) string {
+		es := sortedEnts()
+		for j, e := range es {
+			if cmp(e.k, k) == 0 {
+				nx := "nil"
+				if j+1 < len(es) {
+					nx = es[j+1].k
+				}
+				return fmt.Sprintf("%s %d next=%s", e.k, e.v, nx)
+			}
+		}
+		return "nil"
+	}
+	from := func(k string) []ent { // the bindings from the one equivalent to k (present) to the end
+		es := sortedEnts()
+		for j, e := range es {
+			if cmp(e.k, k) == 0 {
+				return es[j:]
+			}
+		}
+		return nil
+	}
+	held, hasHeld := "", false
 	initialised := kind != "zero"
 	zv := kind == "zero"
 	for i := 0; i < len(c.Lines); i++ {
@@ -728,9 +881,9 @@ func check(c core.Case, out []string) *core.Failure {
 			if zv && !initialised {
 				key = "zero-value-" + key
 			}
-			return &core.Failure{Key: key, Desc: fmt.Sprintf("op %d %q: implementation answered %q, a sorted map holding %s answers %q", i, c.Lines[i], res, kvs(sorted(), 0), want)}
+			return &core.Failure{Key: key, Desc: fmt.Sprintf("op %d %q: implementation answered %q, a sorted map holding %s answers %q", i, c.Lines[i], res, kvs(sortedEnts(), 0), want)}
 		}
-		if res == "bad-op" || res == "dead" {
+		if res == "bad-op" || res == "dead" || res == "halted" {
 			continue
 		}
 		if res == "panic" {
@@ -739,99 +892,135 @@ func check(c core.Case, out []string) *core.Failure {
 		if i > 0 {
 			t := core.Toks(c.Lines[i])
 			want := ""
+			put := func(k string, v int) {
+				if j := find(k); j >= 0 {
+					ref[j].v = v // the stored key stays
+				} else {
+					ref = append(ref, ent{k, v})
+				}
+			}
 			switch t[0] {
 			case "set":
-				ref[t[1]], _ = strconv.Atoi(t[2])
+				v, _ := strconv.Atoi(t[2])
+				put(t[1], v)
 				want = "ok"
 				initialised = true
 			case "setnx":
-				_, has := ref[t[1]]
+				has := find(t[1]) >= 0
 				if !has {
-					ref[t[1]], _ = strconv.Atoi(t[2])
+					v, _ := strconv.Atoi(t[2])
+					put(t[1], v)
 				}
 				want = strconv.FormatBool(!has)
 				initialised = true
 			case "setx":
-				_, has := ref[t[1]]
+				has := find(t[1]) >= 0
 				if has {
-					ref[t[1]], _ = strconv.Atoi(t[2])
+					v, _ := strconv.Atoi(t[2])
+					put(t[1], v)
 				}
 				want = strconv.FormatBool(has)
 			case "get":
-				v, has := ref[t[1]]
-				want = fmt.Sprintf("%d %v", v, has)
-			case "rm":
-				v, has := ref[t[1]]
-				delete(ref, t[1])
-				want = fmt.Sprintf("%d %v", v, has)
-			case "getnode":
-				v, has := ref[t[1]]
-				if !has {
-					want = "nil"
+				if j := find(t[1]); j >= 0 {
+					want = fmt.Sprintf("%d true", ref[j].v)
 				} else {
-					nx := "nil"
-					ks := sorted()
-					for j, k := range ks {
-						if k == t[1] && j+1 < len(ks) {
-							nx = ks[j+1]
-						}
-					}
-					want = fmt.Sprintf("%s %d next=%s", t[1], v, nx)
+					want = "0 false"
 				}
+			case "rm":
+				if j := find(t[1]); j >= 0 {
+					want = fmt.Sprintf("%d true", ref[j].v)
+					if hasHeld && cmp(held, ref[j].k) == 0 {
+						hasHeld = false
+					}
+					ref = append(ref[:j], ref[j+1:]...)
+				} else {
+					want = "0 false"
+				}
+			case "getnode":
+				want = nodeStr(t[1])
+			case "hold":
+				want = nodeStr(t[1])
+				hasHeld = want != "nil"
+				if j := find(t[1]); j >= 0 {
+					held = ref[j].k
+				}
+			case "held":
+				want = "none"
+				if hasHeld {
+					want = nodeStr(held)
+				}
+			case "heldset":
+				want = "none"
+				if hasHeld {
+					v, _ := strconv.Atoi(t[1])
+					put(held, v)
+					want = "ok"
+				}
+			case "heldwalk":
+				want = "none"
+				if hasHeld {
+					want = kvs(from(held), 0)
+				}
+			case "walk":
+				want = kvs(sortedEnts(), 0)
+			case "walkfrom":
+				want = kvs(from(t[1]), 0)
 			case "setnode":
-				if _, has := ref[t[1]]; has {
-					ref[t[1]], _ = strconv.Atoi(t[2])
+				if find(t[1]) >= 0 {
+					v, _ := strconv.Atoi(t[2])
+					put(t[1], v)
 					want = "ok"
 				} else {
 					want = "nil"
 				}
 			case "clear":
-				ref = map[string]int{}
+				ref = nil
+				hasHeld = false
 				want = "ok"
 			case "init":
-				ref = map[string]int{}
+				ref = nil
+				hasHeld = false
 				want = "ok"
 				initialised = true
 			case "len":
 				want = strconv.Itoa(len(ref))
 			case "head":
-				ks := sorted()
-				if len(ks) == 0 {
+				es := sortedEnts()
+				if len(es) == 0 {
 					want = "nil"
 				} else {
-					want = fmt.Sprintf("%s %d", ks[0], ref[ks[0]])
+					want = fmt.Sprintf("%s %d", es[0].k, es[0].v)
 				}
 			case "keys":
 				want = "[" + strings.Join(sorted(), " ") + "]"
 			case "values":
 				var ss []string
-				for _, k := range sorted() {
-					ss = append(ss, strconv.Itoa(ref[k]))
+				for _, e := range sortedEnts() {
+					ss = append(ss, strconv.Itoa(e.v))
 				}
 				want = "[" + strings.Join(ss, " ") + "]"
 			case "range", "all":
 				stop, _ := strconv.Atoi(t[1])
-				want = kvs(sorted(), stop)
+				want = kvs(sortedEnts(), stop)
 			case "rfrom":
 				stop, _ := strconv.Atoi(t[2])
-				var ks []string
-				for _, k := range sorted() {
-					if cmp(k, t[1]) >= 0 {
-						ks = append(ks, k)
+				var es []ent
+				for _, e := range sortedEnts() {
+					if cmp(e.k, t[1]) >= 0 {
+						es = append(es, e)
 					}
 				}
-				want = kvs(ks, stop)
+				want = kvs(es, stop)
 			case "rrange":
 				stop, _ := strconv.Atoi(t[3])
-				var ks []string
-				for _, k := range sorted() {
-					if cmp(k, t[1]) >= 0 && cmp(k, t[2]) < 0 {
-						ks = append(ks, k)
+				var es []ent
+				for _, e := range sortedEnts() {
+					if cmp(e.k, t[1]) >= 0 && cmp(e.k, t[2]) < 0 {
+						es = append(es, e)
 					}
 				}
-				want = kvs(ks, stop)
+				want = kvs(es, stop)
 			}
-			// keys are canonical tokens on both sides except int keys with sign/zeros: normalise
 			if res != want {
 				return fail(t[0]+"-result", want)
 			}
@@ -947,6 +1136,17 @@ func classify(c core.Case, out []string) []string {
 			}
 		case t[0] == "setnx" || t[0] == "setx":
 			ls = append(ls, t[0]+" "+res)
+		case t[0] == "walk" || t[0] == "walkfrom" || t[0] == "hold" || t[0] == "held" || t[0] == "heldset" || t[0] == "heldwalk":
+			switch {
+			case res == "none" || res == "nil" || res == "[]":
+				ls = append(ls, t[0]+" (no node)")
+			default:
+				ls = append(ls, t[0]+" (node)")
+			}
+		}
+		// a weak-order comparator found a stored key that differs from the argument
+		if (t[0] == "getnode" || t[0] == "hold") && res != "nil" && len(t) == 2 && !strings.HasPrefix(res, t[1]+" ") {
+			ls = append(ls, "equivalent key found (stored key differs)")
 		}
 		if i > 0 && strings.Contains(out[i-1], " nil") && strings.Contains(out[i-1], "| L=0") {
 			ls = append(ls, "op on uninitialised list: "+t[0])
